@@ -3,6 +3,7 @@ import Midgard.Model.RinexNav
 import Midgard.Model.RinexNavDispatch
 import Midgard.Generated.RinexNavCols
 import Midgard.Spec.RinexNavFile
+import Midgard.Spec.RinexNavPost
 
 /-! Driver for C12 (RINEX navigation).
 
@@ -17,7 +18,9 @@ import Midgard.Spec.RinexNavFile
     c12 model3 <tokens of an abstract file>   → {"wf":…,"thm":…,"text":<hex of render3 F>,"cols":…}: the abstract
                                          file of `Spec/RinexNavFile.lean` rendered by the spec writer, read by
                                          `accumV3` and compared with `expectedState` (`thm` = the instance of
-                                         `file_records_v3`), then post-processed by `postV3` (`cols`)
+                                         `file_records_v3`), then post-processed by `postV3` (`cols`); `rows` = the same
+                                         columns computed record by record with `postSem` (Spec/RinexNavPost.lean), `post` =
+                                         the compiled instance of `post_record` (cols and rows agree name by name)
     c12 model2 <parser> <tokens>           the same through `render2` / `accumV2` / `postV2` (RINEX 2 GPS files,
                                          `file_records_v2`; satsys and systext are not printed)
       wire: version ftype satsys systext (hex)  n n×(content label)  n n×item
@@ -122,8 +125,13 @@ def handle : List String → Option String
     let acc := accumV3 Midgard.Generated.RinexNav.v3 text
     let thm := decide (acc = some ([f.satSys], Midgard.Spec.RinexNavFile.expectedState f.items))
     let cols := acc.bind fun (sys, st) => postV3 Midgard.Generated.RinexNav.v3 sys st
+    -- `post_record`: the same columns computed record by record (`postSem`)
+    let rows := Midgard.Props.C12.postRows3 (asString [f.satSys]) (Midgard.Spec.RinexNavFile.supported f.items)
+    let post := Midgard.Props.C12.sameCols (Midgard.Props.C12.outKeys Midgard.Generated.RinexNav.v3) cols rows
     pure ("{\"wf\":" ++ (if f.wf then "true" else "false") ++ ",\"thm\":" ++ (if thm then "true" else "false") ++
-      ",\"text\":\"" ++ encodeHex (asString text) ++ "\",\"cols\":" ++ (cols.elim "\"RAISES\"" showCols) ++ "}")
+      ",\"post\":" ++ (if post then "true" else "false") ++
+      ",\"text\":\"" ++ encodeHex (asString text) ++ "\",\"cols\":" ++ (cols.elim "\"RAISES\"" showCols) ++
+      ",\"rows\":" ++ (rows.elim "\"RAISES\"" showCols) ++ "}")
   | "c12" :: "model2" :: parser :: toks => do
     let T ← match parser with
       | "rinex2_nav" => some Midgard.Generated.RinexNav.v2
@@ -135,8 +143,13 @@ def handle : List String → Option String
     let acc := accumV2 T "G" text
     let thm := decide (acc = some (Midgard.Spec.RinexNavFile.expectedState f.items))
     let cols := acc.bind fun st => postV2 T "G" st
+    -- `post_record_v2`: the same columns computed record by record (`postSem2`)
+    let rows := Midgard.Props.C12.postRows2 T "G" (Midgard.Spec.RinexNavFile.supported f.items)
+    let post := Midgard.Props.C12.sameCols (Midgard.Props.C12.outKeys T) cols rows
     pure ("{\"wf\":" ++ (if f.wf2 then "true" else "false") ++ ",\"thm\":" ++ (if thm then "true" else "false") ++
-      ",\"text\":\"" ++ encodeHex (asString text) ++ "\",\"cols\":" ++ (cols.elim "\"RAISES\"" showCols) ++ "}")
+      ",\"post\":" ++ (if post then "true" else "false") ++
+      ",\"text\":\"" ++ encodeHex (asString text) ++ "\",\"cols\":" ++ (cols.elim "\"RAISES\"" showCols) ++
+      ",\"rows\":" ++ (rows.elim "\"RAISES\"" showCols) ++ "}")
   | ["c12", "rinex_nav", n, h] => do
     let name ← (decodeHex? n).map ofString
     let t ← (decodeHex? h).map ofString
